@@ -206,6 +206,41 @@ theorem init_opened {E : Enc} {tv : List String} {tr : Hist} (hr : ModelRun E (f
         rw [htv] at h1
         exact ⟨(m, .seen o), by simp, o, rfl, Or.inl ((validMeta_iff hw hside tv).2 h1)⟩
 
+/-- Once the `InitializedHandler` has run on a model case, `InitializedParams` is recorded — and stays. -/
+theorem ran_initd {E : Enc} {tv : List String} {tr : Hist} (hr : ModelRun E (fresh tv) tr) :
+    ∀ j, j ≤ tr.length → InitializedRan (tr.take j) → (stateAt (fresh tv) (tr.take j)).initd = true := by
+  intro j
+  induction j with
+  | zero => intro _ h; obtain ⟨p, hp, _⟩ := h; simp at hp
+  | succ k ih =>
+    intro hk hran
+    have hlt : k < tr.length := by omega
+    have hget : tr[k]? = some tr[k] := List.getElem?_eq_getElem hlt
+    obtain ⟨o, ho, hw, ha⟩ := hr k _ hget
+    generalize hp : tr[k] = p at hget ho hw ha
+    obtain ⟨m, obs⟩ := p
+    simp only at ho hw ha
+    subst ho
+    rw [stateAt_succ hget]
+    rw [take_succ_of_getElem? hget, initializedRan_snoc] at hran
+    generalize hst : stateAt (fresh tv) (tr.take k) = s at ha ih
+    simp only
+    rcases hran with hran | ⟨hside, hn, huh⟩
+    · have hs := ih (by omega) hran
+      cases hside : m.side with
+      | client => simpa [mstep, hside] using hs
+      | server => rw [show mstep s m = admitReq s m.req by simp [mstep, hside]]; exact admit_initd_mono s m.req hs
+    · have hm : mstep s m = admitReq s m.req := by simp [mstep, hside]
+      rw [hm]
+      obtain ⟨h, res, e, hne⟩ := ha.uh huh
+      rw [hm] at e
+      have hmeth := invoked_method e
+      rw [(wf_name_iff hw .notifications_initialized).1 hn] at hmeth
+      cases hmeth
+      have : res = .ok := Classical.byContradiction fun hx => hne ⟨rfl, hx⟩
+      subst this
+      exact admit_initialized_ok s m.req e
+
 /-- Everything the clause proofs need at a judged envelope of a model case. -/
 structure AtModel (E : Enc) (tv : List String) (tr : Hist) (j : Nat) (m : Msg) (o : MObs) (s : State) : Prop where
   wf : WfMsg m
@@ -687,6 +722,29 @@ theorem m_initialized_premature_or_repeated_rejected : P_initialized_premature_o
     subst this
     simp [initializedHandlerRuns, e] at h2
 
+theorem m_initialized_handler_once : P_initialized_handler_once tr := by
+  intro j m o hat hside hn hran
+  have am := at_model hr hat
+  have hle : j ≤ tr.length := by
+    rcases Nat.lt_or_ge j tr.length with h | h
+    · omega
+    · have := hat.here; rw [List.getElem?_eq_none h] at this; cases this
+  have hm := (wf_name_iff am.wf .notifications_initialized).1 hn
+  have hs := ran_initd hr j hle hran
+  obtain ⟨_, h2⟩ := initialized_premature_or_repeated_rejected_state_unchanged _ m.req hm (Or.inr hs)
+  cases huh : o.uh with
+  | false => rfl
+  | true =>
+    exfalso
+    obtain ⟨h, res, e, hne⟩ := am.agrees.uh huh
+    rw [mstep_server hside] at e
+    have hmeth := invoked_method e
+    rw [hm] at hmeth
+    cases hmeth
+    have : res = .ok := Classical.byContradiction fun hx => hne ⟨rfl, hx⟩
+    subst this
+    simp [initializedHandlerRuns, e] at h2
+
 theorem m_ping_always_served : P_ping_always_served tr := by
   intro j m o hat hl hn hid h1 h2
   have am := at_model hr hat
@@ -872,6 +930,7 @@ theorem model_satisfies_P (cl : Clause) : P_of tv cl tr := by
   | secondInitState => exact m_second_initialize_keeps_state hr
   | rejectedInitState => exact m_rejected_initialize_keeps_state hr
   | initializedAccepted => exact m_initialized_premature_or_repeated_rejected hr
+  | initializedTwice => exact m_initialized_handler_once hr
   | pingNotServed => exact m_ping_always_served hr
   | incompleteMeta => exact m_incomplete_meta_invalid_params hr
   | f34NotRefused => exact m_transport_version_refused hr
